@@ -54,6 +54,25 @@ TYPE_ALIASES = {
 }
 
 
+import os as _os_dbg
+
+TRACE_SPEC_FUNCTIONS = {
+    "emitted", "n_emitted", "nogap", "count_cls", "last_is", "exists_cls", "forall_emitted", "yielded", "trace_any", "trace_all",
+    "after_gap", "n_after_gap", "suffix_after", "call_result", "net_written", "net_ops", "call_index", "call_args", "call_time", "clock", "clock0",
+}
+
+
+def clause_mentions_traces(cl) -> bool:
+    r = getattr(cl, "_mentions_traces", None)
+    if r is None:
+        r = any(isinstance(n, ast.Call) and isinstance(n.func, ast.Name) and n.func.id in TRACE_SPEC_FUNCTIONS for n in ast.walk(cl.node))
+        try:
+            cl._mentions_traces = r
+        except Exception:
+            pass
+    return r
+
+
 def _split_top(s: str, sep: str) -> List[str]:
     out, depth, cur = [], 0, ""
     for ch in s:
@@ -145,6 +164,12 @@ class RulesMixin:
             return PList(sym=SymSeq(e, "str" if ty == "strs" else "bstr"))
         if ty.startswith("const "):
             return eval(ty[6:], {"__builtins__": {}}, {})
+        if ty.startswith("sentinel "):
+            # a module level singleton of a library (h11.NEED_DATA ...)
+            import importlib
+
+            modname, attr = ty[9:].strip().rsplit(".", 1)
+            return getattr(importlib.import_module(modname), attr)
         if ty.startswith("callable"):
             # callable{record:NAME;raises:Exc1,Exc2;returns:TYPE;yields:1}
             opts = {}
@@ -156,7 +181,7 @@ class RulesMixin:
                         opts[k.strip()] = v.strip()
             raises = [self.exc_class(x.strip()) for x in opts.get("raises", "").split(",") if x.strip()]
             return SObj("pyvc:Callable", {"record": opts.get("record"), "raises": raises, "returns": opts.get("returns"),
-                                          "yields": opts.get("yields", "1") not in ("0", "false", "")}, tag=name)
+                                          "yields": opts.get("yields", "1") not in ("0", "false", ""), "coro": opts.get("coro", "") not in ("", "0", "false")}, tag=name)
         if ty.startswith("opt "):
             nm = ctx.fresh_name(name + ".isnone")
             isn = z3.Bool(nm)
@@ -278,11 +303,38 @@ class RulesMixin:
             self.assume_published_fields(obj)
         return obj
 
+    def materialise(self, owner: SObj, attr: str):
+        """decide a lazily havoced union-typed field now; the new object satisfies its class
+        invariant and, being held in a field, its published invariant"""
+        from .sym import LazyUnion
+
+        v = owner.fields[attr]
+        if not isinstance(v, LazyUnion):
+            return v
+        if v.cell is not None:
+            # another holder of the same placeholder (the live object or a snapshot of it) has
+            # decided it already: same object, its state as it was when the field was havoced
+            val = self.snap(v.cell, {})
+            owner.fields[attr] = val
+            return val
+        val = self.make_symbolic(v.ty, v.name)
+        inner = val.value if isinstance(val, SymOpt) else val
+        if isinstance(inner, SObj):
+            icc = self.class_contract(inner)
+            if icc is not None:
+                for cl in icc.published_inv:
+                    self.assume_clause(cl, {"self": inner}, None, None, f"published {cl.name}")
+        v.cell = self.snap(val, {})
+        owner.fields[attr] = val
+        return val
+
     def assume_published_fields(self, obj: SObj):
         """objects held in fields of another object have been published: their published
         invariant holds"""
         for f, v in obj.fields.items():
             inner = v.value if isinstance(v, SymOpt) else v
+            if inner is getattr(self, "unpublished", None) and inner is not None:
+                continue
             if isinstance(inner, SObj):
                 icc = self.class_contract(inner)
                 if icc is not None:
@@ -461,6 +513,9 @@ class RulesMixin:
             pass
         for n in names:
             if n not in env:
+                if not fc.qualname.startswith("hypercorn") and n in fc.model_opts.get("defaults", {}):
+                    env[n] = fc.model_opts["defaults"][n]  # port / interface contract: declared default
+                    continue
                 raise mk_exc(TypeError, f"{fc.qualname}: missing argument {n}", where=fr.where())
         return env
 
@@ -490,7 +545,9 @@ class RulesMixin:
 
             cmod = module_info(fc.qualname.split(":")[0])
         except Exception:
-            cmod = None
+            # interface / port contract that is not a function of the repository: its clauses are
+            # read in the name space of the calling unit's module
+            cmod = getattr(self, "unit_module", None)
         for cl in fc.requires:
             v = self.spec_eval_p(cl, env, None, cmod)
             # a precondition at a call site is the caller's obligation: it counts for whichever
@@ -499,12 +556,26 @@ class RulesMixin:
         old_env = self.snapshot_env(env)
         # every call made through a contract is recorded (contracts can speak about call order)
         self.traces.setdefault("calls", []).append((fc.qualname.split(":")[1],) + tuple(args))
+        if getattr(self, "clock", None) is not None:
+            self.traces.setdefault("call_times", []).append((fc.qualname.split(":")[1], self.clock))
         # exceptional alternatives
         alts = ["normal"]
         for exc_name, when in fc.raises.items():
             alts.append(exc_name)
         k = ctx.choose(len(alts), f"outcome({fc.qualname.split(':')[1]})@{fr.line}", alts)
+        cover_name = f"{unit}.call.{fc.qualname.split(':')[1]}@{fr.line}.continues"
+        ctx.covers.setdefault(cover_name, False)
+        suspends = fc.effect == "yields" or (fc.effect is None and not fc.assume_only and self.contract_suspends(fc))
+        if suspends:
+            # the callee may suspend at once: what this task did since its last suspension is
+            # visible to the others now (its own segment ends here; the callee answers for its
+            # own segments), and while the callee is suspended the others run
+            self.suspend_for_call(fr, f"call {fc.qualname.split(':')[1]}", callee_obj=env.get("self") if isinstance(env.get("self"), SObj) else None)
         self.havoc_modifies(fc, env, fr)
+        if fc.modifies is None and not fc.assume_only:
+            # no frame declared: what the callee may write is inferred from its source (frames.py);
+            # where that is not possible anything reachable may have been written
+            self.havoc_inferred_frame(fc, env, fr)
         if k > 0:
             exc_name = alts[k]
             when = fc.raises[exc_name]
@@ -525,6 +596,8 @@ class RulesMixin:
                 # a repo exception that carries data (protocol switch): arbitrary payload
                 for f_, t_ in ecc.fields.items():
                     eobj.fields[f_] = self.make_symbolic(t_, f"{ecls.__name__}.{f_}")
+            if suspends and self.unit_self is not None:
+                self.segment_start = self.snapshot_env({"self": self.unit_self})
             raise PyRaise(eobj, f"{fc.qualname} (contract) called at {fr.where()}")
         result = None
         if fc.returns:
@@ -537,23 +610,50 @@ class RulesMixin:
             env2["result"] = result
         # the callee re-establishes the invariant of its own object
         slf = env.get("self")
+        if _os_dbg.environ.get("PYVC_DEBUG_ENSURES") and ctx.check_full() == z3.unsat:
+            print(f"   [infeasible before the invariant of the callee object is assumed: {fc.qualname} at {fr.where()}]", flush=True)
         if isinstance(slf, SObj):
             cc = self.class_contract(slf)
             if cc is not None:
+                if _os_dbg.environ.get("PYVC_DEBUG_ENSURES"):
+                    for cl_ in cc.inv:
+                        self.assume_clause(cl_, {"self": slf}, None, None, f"inv {cl_.name}")
+                        if ctx.check_full() == z3.unsat:
+                            print(f"   [invariant {cl_.name} makes the path infeasible after {fc.qualname} at {fr.where()}]", flush=True)
+                            break
                 self.assume_inv(slf, cc)
         for cl in fc.ensures + fc.assumed_ensures:
             if "local(" in cl.text:
                 continue  # speaks about the callee's locals: only meaningful inside its own unit
+            if clause_mentions_traces(cl):
+                # speaks about what the callee itself emitted / called: the caller's traces are not
+                # the callee's, so nothing can be assumed from it here (the caller sees the call
+                # itself in its 'calls' trace)
+                continue
             self.assume_clause(cl, env2, old_env, cmod, f"ensures {cl.name}")
+            if _os_dbg.environ.get("PYVC_DEBUG_ENSURES") and ctx.check_full() == z3.unsat:
+                print(f"   [ensures {cl.name} of {fc.qualname} makes the path infeasible at {fr.where()}]", flush=True)
+                raise PathEnd("callee postcondition unsatisfiable on this path (debug)")
         for cl in fc.assumed_ensures:
             self.ctx.assumptions_used.add(f"assumed (not proved) postcondition of {fc.qualname}: {cl.text}")
         if ctx.check() == z3.unsat:
             raise PathEnd("callee postcondition unsatisfiable on this path")
+        ctx.covers[cover_name] = True
         self.run_ghost(fc.ghost_post, env2, fr, module=cmod)
         self.traces.setdefault("results", []).append((fc.qualname.split(":")[1], self.snap(result, {})))
-        if fc.effect == "yields":
-            self.yield_point(fr, f"call {fc.qualname.split(':')[1]}")
+        if suspends and self.unit_self is not None:
+            self.segment_start = self.snapshot_env({"self": self.unit_self})
         return result
+
+    def contract_suspends(self, fc) -> bool:
+        """an `async def` of the repository with an await / async with / async for in its body"""
+        try:
+            _mi, node = find_def(fc.qualname)
+        except Exception:
+            return False
+        if not isinstance(node, ast.AsyncFunctionDef):
+            return False
+        return any(isinstance(n, (ast.Await, ast.AsyncWith, ast.AsyncFor)) for n in ast.walk(node))
 
     def havoc_modifies(self, fc: FnContract, env, fr):
         for target in fc.modifies or []:
@@ -585,6 +685,11 @@ class RulesMixin:
 
     def havoc_field(self, owner: SObj, attr: str):
         t = self.field_type(owner, attr)
+        if t is not None and len(_split_top(t[4:] if t.startswith("opt ") else t, "|")) > 1 and not t.startswith("map "):
+            from .sym import LazyUnion
+
+            owner.fields[attr] = LazyUnion(t, f"{owner.tag or 'o'}.{attr}'")
+            return
         if t is not None:
             owner.fields[attr] = self.make_symbolic(t, f"{owner.tag or 'o'}.{attr}'")
         else:
@@ -729,9 +834,12 @@ class RulesMixin:
             cache[key] = mut
         return cache[key]
 
-    def yield_point(self, fr, why=""):
+    def yield_point(self, fr, why="", callee_obj=None):
         """another task may run here: prove the unit object's invariant and the guarantee of the
-        segment that ends, then havoc every shared object under its invariant and rely"""
+        segment that ends, then havoc every shared object under its invariant and rely.
+        callee_obj: the suspension happens inside a method of that object which is being called
+        through its contract -- its published invariant is that method's business (it is proved at
+        the method's own suspension points) and is not demanded or assumed here."""
         ctx = self.ctx
         self.n_yields = getattr(self, "n_yields", 0) + 1
         self.time_passes(fr)
@@ -743,11 +851,28 @@ class RulesMixin:
                 for cl in cc.inv:
                     v = self.spec_eval_p(cl, {"self": us}, None)
                     ctx.prove(f"{unit}.yield.{cl.name}", self.as_z3_bool(v), cl.text, fr.where(), note=f"invariant before yield ({why})", props=cl.props)
+                # whoever holds this object may look at it now
+                for cl in cc.published_inv:
+                    v = self.spec_eval_p(cl, {"self": us}, None)
+                    ctx.prove(f"{unit}.yield.{cl.name}", self.as_z3_bool(v), cl.text, fr.where(), note=f"published invariant of the unit's own object before yield ({why})", props=cl.props)
                 self.check_guarantee(fr.where(), why)
-                self.prove_published(fr.where())
-        self.havoc_all(use_rely=True)
+                self.prove_published(fr.where(), skip=callee_obj)
+        self.unpublished = callee_obj
+        try:
+            self.havoc_all(use_rely=True)
+        finally:
+            self.unpublished = None
         if us is not None:
             self.segment_start = self.snapshot_env({"self": us})
+
+    def suspend_for_call(self, fr, why, callee_obj=None):
+        """like yield_point, placed *before* the effects of a suspending callee are applied"""
+        dbg = _os_dbg.environ.get("PYVC_DEBUG_ENSURES")
+        if dbg and self.ctx.check_full() == z3.unsat:
+            print(f"   [infeasible before suspend_for_call {why} at {fr.where()}]", flush=True)
+        self.yield_point(fr, why, callee_obj=callee_obj)
+        if dbg and self.ctx.check_full() == z3.unsat:
+            print(f"   [infeasible after suspend_for_call {why} at {fr.where()}]", flush=True)
 
     def reachable_objects(self):
         seen = {}
@@ -796,15 +921,19 @@ class RulesMixin:
                     f = f.parent
         return seen
 
-    def prove_published(self, where):
+    def prove_published(self, where, skip=None):
         """every object held in a container field of the unit object satisfies its published
         invariant whenever other tasks can look"""
         us = self.unit_self
         unit = getattr(self, "unit_name", "?")
         if us is None:
             return
-        for f, v in us.fields.items():
+        for f, v in list(us.fields.items()):
+            if type(v).__name__ == "LazyUnion":
+                continue  # arbitrary object that satisfies its published invariant by assumption
             inner = v.value if isinstance(v, SymOpt) else v
+            if inner is skip and skip is not None:
+                continue
             if isinstance(inner, SObj) and inner is not us:
                 icc = self.class_contract(inner)
                 if icc is not None and icc.published_inv:
@@ -814,6 +943,8 @@ class RulesMixin:
                         self.ctx.prove(f"{unit}.published.{cl.name}", z3.Implies(present, self.as_z3_bool(val)), cl.text, where, note=f"published invariant of self.{f}", props=cl.props)
             if isinstance(v, SymMap):
                 for (k, el) in v.cache:
+                    if el is skip and skip is not None:
+                        continue
                     if isinstance(el, SObj):
                         cc = self.class_contract(el)
                         if cc is None:
@@ -850,8 +981,18 @@ class RulesMixin:
         snaps = []
         for obj in objs:
             snaps.append(self.snapshot_env({"self": obj}) if self.class_contract(obj) is not None else None)
+        # models that condition their havoc on the state of the unit's object must look at its
+        # state *before* this havoc (the order in which objects are havoced is arbitrary)
+        self.pre_havoc_self = None
+        if self.unit_self is not None:
+            for obj, sn in zip(objs, snaps):
+                if obj is self.unit_self and sn is not None:
+                    self.pre_havoc_self = sn["self"]
+            if self.pre_havoc_self is None:
+                self.pre_havoc_self = self.snapshot_env({"self": self.unit_self})["self"]
         for obj in objs:
             self.havoc_object_fields(obj)
+        self.pre_havoc_self = None
         for obj, old in zip(objs, snaps):
             self.assume_after_havoc(obj, old, use_rely)
 
@@ -890,6 +1031,24 @@ class RulesMixin:
             # fields that only this unit's task writes (other tasks prove they leave them alone,
             # see the task_rely clause that goes with task_stable)
             stable = set(cc.task_stable.get(self.own_task(), []))
+            if getattr(self, "loop_keeps_stable", False):
+                lw = getattr(self, "loop_written", set())
+                stable = set() if lw is None else stable - lw
+        held = getattr(self, "held_locks", None) or []
+        for lock_field, prot in cc.lock_protected.items():
+            lk = obj.fields.get(lock_field)
+            if lk is not None and any(lk is h for h in held):
+                stable |= set(prot)
+        for f in cc.write_once:
+            v0 = obj.fields.get(f, UNSET)
+            if isinstance(v0, SymMaybe):
+                # may or may not be set yet: once set it stays set, with the same value
+                p1 = z3.Bool(self.ctx.fresh_name(f"{obj.tag or 'obj'}.{f}.present'"))
+                self.ctx.assume(z3.Implies(v0.present, p1))
+                obj.fields[f] = SymMaybe(p1, v0.value)
+                stable.add(f)
+            elif v0 is not UNSET:
+                stable.add(f)  # already set on this path
         for f in self.mutable_fields(obj, cc):
             if f in stable:
                 continue
@@ -900,11 +1059,42 @@ class RulesMixin:
             self.havoc_field(obj, f)
         return old
 
+    def holds_lock(self, obj: SObj, lock_field: str) -> bool:
+        lk = obj.fields.get(lock_field)
+        return lk is not None and any(lk is h for h in (getattr(self, "held_locks", None) or []))
+
+    def assume_monitor(self, obj: SObj, only_lock=None):
+        cc = self.class_contract(obj)
+        if cc is None:
+            return
+        for lk, cls_ in cc.monitor_inv.items():
+            if only_lock is not None and obj.fields.get(lk) is not only_lock:
+                continue
+            if only_lock is None and self.holds_lock(obj, lk):
+                continue
+            for cl in cls_:
+                self.assume_clause(cl, {"self": obj}, None, None, f"monitor invariant {cl.name}")
+
+    def prove_monitor(self, obj: SObj, where, label, only_lock=None):
+        cc = self.class_contract(obj)
+        if cc is None:
+            return
+        unit = getattr(self, "unit_name", "?")
+        for lk, cls_ in cc.monitor_inv.items():
+            if only_lock is not None and obj.fields.get(lk) is not only_lock:
+                continue
+            if only_lock is None and self.holds_lock(obj, lk):
+                continue
+            for cl in cls_:
+                v = self.spec_eval_p(cl, {"self": obj}, None)
+                self.ctx.prove(f"{unit}.{label}.{cl.name}", self.as_z3_bool(v), cl.text, where, note=f"monitor invariant of self.{lk} ({label})", props=cl.props)
+
     def assume_after_havoc(self, obj: SObj, old, use_rely=True):
         cc = self.class_contract(obj)
         if cc is None or old is None:
             return
         self.assume_inv(obj, cc)
+        self.assume_monitor(obj)
         self.assume_published_fields(obj)
         if use_rely:
             clauses = list(cc.rely)
@@ -912,6 +1102,84 @@ class RulesMixin:
                 clauses += cc.task_rely.get(self.own_task(), [])
             for cl in clauses:
                 self.assume_clause(cl, {"self": obj}, old, None, f"rely {cl.name}")
+
+    def havoc_inferred_frame(self, fc, env, fr):
+        from .frames import may_write
+
+        slf0 = env.get("self")
+        local = fc.qualname.split(":")[1]
+        info = None
+        if local.endswith(".__init__"):
+            return  # constructor by contract: the fields are unconstrained already, ghost state starts at its initial value
+        if isinstance(slf0, SObj) and isinstance(slf0.cls, type) and "." in local:
+            info = may_write(self.reg, slf0.cls, local.rsplit(".", 1)[1])
+        if info is None or info.unknown:
+            if isinstance(slf0, SObj) or any(isinstance(v_, SObj) and self.class_contract(v_) is not None for v_ in env.values()):
+                self.ctx.assumptions_used.add(f"frame of {fc.qualname} not inferable ({getattr(info, 'why', 'not a method of a repository class')}): every reachable object havoced at its call sites")
+                self.havoc_all(use_rely=False)
+            return
+        cc = self.class_contract(slf0)
+        for f in sorted(info.fields):
+            if cc is not None and f not in cc.fields and f not in cc.ghost and f not in slf0.fields:
+                continue
+            self.havoc_field(slf0, f)
+        for f in sorted(info.deep - info.fields):
+            self.deep_havoc(slf0.fields.get(f, UNSET))
+        if cc is not None:
+            # ghost state of the callee's object follows its real fields: unknown after the call
+            # unless the callee's postcondition says otherwise
+            for g in cc.ghost:
+                self.havoc_field(slf0, g)
+            self.assume_inv(slf0, cc)
+            # the callee proves the published invariants of the objects it leaves in its fields
+            self.assume_published_fields(slf0)
+
+    def deep_havoc(self, v, depth=0):
+        """the object(s) behind a field may have been mutated by a callee of the same task"""
+        if isinstance(v, (SymOpt, SymMaybe)):
+            v = v.value
+        if isinstance(v, SObj):
+            model = self.model_for(v.cls)
+            if model is not None and hasattr(model, "havoc"):
+                model.havoc(self, v)
+                return
+            cc = self.class_contract(v)
+            if cc is not None:
+                self.havoc_object_fields_all(v)
+                for g in cc.ghost:
+                    self.havoc_field(v, g)
+                self.assume_inv(v, cc)
+            return
+        if isinstance(v, SymMap):
+            self.havoc_map(v)
+            return
+        if isinstance(v, PList):
+            for x in v.items:
+                if depth < 2:
+                    self.deep_havoc(x, depth + 1)
+
+    def havoc_map(self, m: SymMap):
+        """membership and every element of the map may have changed"""
+        ctx = self.ctx
+        m.has = z3.Array(ctx.fresh_name((m.name or "map") + ".has'"), z3.IntSort(), z3.BoolSort())
+        m.cache = []
+        if getattr(m, "size", None) is not None:
+            n = ctx.fresh("size'", z3.IntSort())
+            ctx.assume(n >= 0)
+            m.size = n
+
+    def havoc_object_fields_all(self, obj: SObj):
+        """an atomic callee without a declared frame may have written any mutable field of its
+        object; the invariant is re-established (assumed) afterwards by the caller of this"""
+        cc = self.class_contract(obj)
+        if cc is None:
+            return
+        for f in self.mutable_fields(obj, cc):
+            if f in obj.fields and obj.fields[f] is UNSET and not cc.fields.get(f, "").startswith("maybe"):
+                continue
+            if f not in obj.fields and f not in cc.ghost and not cc.fields.get(f, "").startswith("maybe"):
+                continue
+            self.havoc_field(obj, f)
 
     def havoc_object(self, obj: SObj, use_rely=True):
         old = self.havoc_object_fields(obj)
@@ -1160,11 +1428,20 @@ class RulesMixin:
         if heap:
             # fields only this task assigns keep their identity across iterations; that the body
             # does not assign them is checked at the back edge
+            # ... unless the body (or a method of the object it calls) may assign them
+            from .frames import block_may_write
+
+            written = set()
+            if self.unit_self is not None:
+                bw = block_may_write(self.reg, self.unit_self.cls, s.body, label)
+                written = set(bw.fields) if not bw.unknown else None
             self.loop_keeps_stable = True
+            self.loop_written = written
             try:
                 self.havoc_all(use_rely=False)
             finally:
                 self.loop_keeps_stable = False
+                self.loop_written = set()
             tr = self.traces
             for k in list(tr):
                 tr[k] = [TraceGap(label)]
@@ -1193,6 +1470,7 @@ class RulesMixin:
                     v = self.spec_eval_loop(cl, env_for(mk_int(i)), pre_env, fr)
                     ctx.assume(self.as_z3_bool(v), "trusted loop lemma")
                     ctx.assumptions_used.add(f"assumed (not proved) fact at the exit of {label}: {cl.text}")
+                self.loop_exit_ensures(spec, label, env_for(mk_int(i)), pre_env, fr)
                 if target_names:
                     # after the loop the target holds the last element (if any) -- unknown here
                     for name in target_names:
@@ -1205,19 +1483,29 @@ class RulesMixin:
         else:
             c = self.ev(s.test, fr)
             if not ops.truth_branch(ctx, c, f"while@{s.lineno}"):
+                self.loop_exit_ensures(spec, label, env_for(0), pre_env, fr)
                 return False
         stable_before = {}
         if heap and self.unit_self is not None:
             cc_ = self.class_contract(self.unit_self)
             if cc_ is not None:
+                from .frames import block_may_write as _bmw
+
+                bw_ = _bmw(self.reg, self.unit_self.cls, s.body, label)
                 for f_ in cc_.task_stable.get(self.own_task(), []):
+                    if bw_.unknown or f_ in bw_.fields:
+                        continue  # the loop havoc did not keep it
                     stable_before[f_] = self.unit_self.fields.get(f_, UNSET)
         r = self.run_body(s.body, fr)
+        from .contracts import mk_clauses as _mk
+
+        # iter_ensures: postcondition of one iteration however it ends (normally, continue, break)
+        for cl in _mk(f"{label}.iter", spec.get("iter_ensures")):
+            v = self.spec_eval_loop(cl, env_for(mk_int(i) if i is not None else 0), pre_env, fr, proving=True)
+            ctx.prove(f"{unit}.{cl.name}", self.as_z3_bool(v), cl.text, fr.where(), note=f"postcondition of one loop iteration (left by {r})", props=cl.props)
         if r == "break":
             return True
         # per-iteration postcondition (speaks about what this iteration emitted / called)
-        from .contracts import mk_clauses as _mk
-
         for cl in _mk(f"{label}.body", spec.get("body_ensures")):
             v = self.spec_eval_loop(cl, env_for(mk_int(i) if i is not None else 0), pre_env, fr, proving=True)
             ctx.prove(f"{unit}.{cl.name}", self.as_z3_bool(v), cl.text, fr.where(), note="postcondition of one loop iteration", props=cl.props)
@@ -1233,6 +1521,16 @@ class RulesMixin:
             self.prove_unit_inv(fr, f"{label}.backedge")
             self.check_guarantee(fr.where(), f"{label} back edge")
         raise PathEnd("loop iteration done")
+
+    def loop_exit_ensures(self, spec, label, env, pre_env, fr):
+        """exit_ensures: proved where the loop ends normally (test false / iterator exhausted),
+        from the invariant and the negated test"""
+        from .contracts import mk_clauses as _mk3
+
+        unit = getattr(self, "unit_name", "?")
+        for cl in _mk3(f"{label}.exit", spec.get("exit_ensures")):
+            v = self.spec_eval_loop(cl, env, pre_env, fr, proving=True)
+            self.ctx.prove(f"{unit}.{cl.name}", self.as_z3_bool(v), cl.text, fr.where(), note="at the normal exit of the loop", props=cl.props)
 
     def spec_eval_loop(self, cl, env, pre_env, fr, proving=False):
         f2 = Frame(f"spec:{cl.name}", fr.module, spec=True)
